@@ -493,13 +493,13 @@ pub fn run_section(rep: &mut Report, cli: &Cli, props: u32) {
         needed.push("Close:err");
     }
     for k in needed {
-        if o.histogram.get(k).copied().unwrap_or(0) == 0 {
+        if o.histogram.get(k).copied().unwrap_or(0) == 0 && rep.violations_total() == 0 {
             rep.machinery(format!("vacuous position-order exploration: outcome {k} never occurred"));
         }
     }
     if props & P23 != 0 {
         for k in ["orders_cancelled_by_execution", "orders_completed"] {
-            if o.counters.get(k).copied().unwrap_or(0) == 0 {
+            if o.counters.get(k).copied().unwrap_or(0) == 0 && rep.violations_total() == 0 {
                 rep.machinery(format!("vacuous position-order exploration: {k} never occurred"));
             }
         }
